@@ -201,13 +201,26 @@ def check_common_indices(ctx):
                 chain.append(cur.as_atom("setitem"))
                 cur = cur.as_atom("setitem").args[0]
             ok_fill = len(chain) == 2 and isinstance(cur, Rat) and cur.as_atom("zeros") is not None
+            comp_form = None
+            if not ok_fill and isinstance(r, Rat):
+                # np.array([<entry for value> for value in common]) / np.fromiter(...): one entry per common value, in order, by construction
+                ra = r.as_atom()
+                inner_ = ra.args[0] if ra is not None and ra.func in ("nparray", "call:numpy.fromiter", "call:numpy.asarray") and ra.args and isinstance(ra.args[0], Rat) else None
+                mp = inner_.as_atom("map") if inner_ is not None else None
+                if mp is not None and len(mp.args) == 2 and isinstance(mp.args[0], Rat) and isinstance(mp.args[1], Rat):
+                    comp_form = (mp.args[0], mp.args[1])
+                    ok_fill = True
             ctx.ob("C02.1", site, ok_fill, "%s, input #%d: the index array is filled value by value (one entry per common value)" % (ax, k), loc=loc,
                    msg="for dimension %s the index array of input #%d is %s, not a per-value first-match lookup" % (ax, k, str(r)[:160]))
             if not ok_fill:
                 continue
-            size = cur.as_atom("zeros").args[0]
-            for stx in chain:
-                idx, v = stx.args[1], stx.args[2]
+            if comp_form is not None:
+                size = form.apply("len", [comp_form[1]])
+                entries = [(None, comp_form[0])]
+            else:
+                size = cur.as_atom("zeros").args[0]
+                entries = [(stx.args[1], stx.args[2]) for stx in chain]
+            for idx, v in entries:
                 g = v.as_atom("getitem") if isinstance(v, Rat) else None
                 inner = g.args[0].as_atom("getitem") if g is not None and isinstance(g.args[0], Rat) else None
                 wh = inner.args[0].as_atom("where") if inner is not None and isinstance(inner.args[0], Rat) else None
@@ -223,7 +236,8 @@ def check_common_indices(ctx):
                 parts = d.atoms(deep=False)
                 commonside = [a for a in parts if "intersect1d" in a.key]
                 valside = [a for a in parts if "intersect1d" not in a.key]
-                ok_split = len(commonside) == 1 and len(valside) == 1 and (commonside[0].func == "getitem" or commonside[0].func.startswith("elem#"))
+                ok_split = len(commonside) == 1 and len(valside) == 1 and (commonside[0].func == "getitem" or commonside[0].func.startswith("elem#")
+                                                                        or (comp_form is not None and commonside[0].func == "elem"))
                 ctx.ob("C02.1", site, ok_split, "%s, input #%d: the comparison is between the input's values and one common value" % (ax, k), loc=loc,
                        msg="for dimension %s input #%d compares %s" % (ax, k, str(d)[:160]))
                 if not ok_split:
@@ -237,7 +251,10 @@ def check_common_indices(ctx):
                        sample={"rule": "C02.1", "axis": ax, "input": k, "attrs": sorted(attrs)})
                 ctx.ob("C02.1", site, elems == {own}, "%s, input #%d: the searched values are the input's OWN values" % (ax, k), loc=loc,
                        msg="for dimension %s the positions for input #%d are looked up in the values of %s" % (ax, k, sorted(elems)))
-                if cg.func.startswith("elem#"):
+                if comp_form is not None:
+                    # a comprehension over the common values keeps their order: entry i is computed from value i
+                    ok_pos = cg.func == "elem" and cg.args and isinstance(cg.args[0], Rat) and cg.args[0].equals(comp_form[1])
+                elif cg.func.startswith("elem#"):
                     # `for i, value in enumerate(common)`: the value of iteration k goes to the index of iteration k
                     ok_pos = isinstance(idx, Rat) and idx.key().endswith(cg.func[4:]) and idx.key().startswith("$")
                 else:
